@@ -338,6 +338,21 @@ def _interval_cases(res, stmts, shard=60):
 
 
 
+def matches_known(v, known):
+    """F-C11-1 absorbs ONLY: x_first_derivative != (mixed partial) * prod(u) where the implementation's value equals
+    sign(prod u) * (finite-difference mixed partial) -- the recorded defect.  Any other x_first_derivative failure (wrong
+    magnitude, nan, other entry point) is a new violation."""
+    r = v["replay"]
+    if known.get("id") != "F-C11-1" or r.get("kind") != "xfd" or not r.get("equals_signed_mixed_partial"):
+        return False
+    xfd, d = r.get("x_first_derivative"), r.get("mixed_partial_fd")
+    u = r.get("u") or []
+    if not (isinstance(xfd, float) and isinstance(d, float) and math.isfinite(xfd) and math.isfinite(d) and u):
+        return False
+    sgn = math.copysign(1.0, math.prod(u))
+    return abs(xfd - sgn * d) <= 5e-3 * abs(xfd)
+
+
 def replay(path):
     data = json.load(open(path))
     print(json.dumps(data, indent=1)[:3000])
